@@ -53,6 +53,9 @@ func (e *Engine) genContractTest(con *Contract) (src string, testName string, nc
 		return "", "", 0, "no function"
 	}
 	fn := ci.fn
+	if con.noexec != "" {
+		return "", "", 0, "marked noexec: " + con.noexec
+	}
 	if fn.Parent() != nil {
 		return "", "", 0, "closures cannot be called directly"
 	}
@@ -355,7 +358,7 @@ func (e *Engine) runContractTests(cons []*Contract, seed int64, budget int, work
 		os.WriteFile(ovfile, ob, 0o644)
 		env := append(os.Environ(), fmt.Sprintf("GOVC_SEED=%d", seed), fmt.Sprintf("GOVC_BUDGET=%d", budget))
 		rel, _ := filepath.Rel(e.repo, pkgDir)
-		args := []string{"test", "-tags", "verif", "-overlay", ovfile, "-vet=off", "-count=1", "-v", "-timeout", "600s", "-run", "^TestGovcContract_", "./" + rel}
+		args := []string{"test", "-tags", "verif", "-overlay", ovfile, "-vet=off", "-count=1", "-v", "-timeout", "150s", "-run", "^TestGovcContract_", "./" + rel}
 		cmd := exec.Command("go", args...)
 		cmd.Dir = e.repo
 		cmd.Env = env
